@@ -260,8 +260,10 @@ def check_conv(smt2, params, spec_):
             _ground(2 * r.lo > -Q and 2 * r.hi <= Q, "b_to_znx128: centered representative in (-Q/2, Q/2] (interval [%d,%d])" % (r.lo, r.hi))
             # ground facts about the CRT constants follow from the congruences above holding for all lane values
     except AssertionError as ex:
-        return {"status": "FAIL", "stats": stats, "detail": str(ex),
-                "replay_inputs": [str(x) for x in ([0] if nin == 1 else [M64, 1, qs[2] - 1, qs[3]] * (nin // 4))]}
+        rep = [0] if nin == 1 else [M64, 1, qs[2] - 1, qs[3]] * (nin // 4)
+        if conv == 5:
+            rep = [((Q + 1) // 2) % qk for qk in qs]  # the residue class at the edge of the centered range
+        return {"status": "FAIL", "stats": stats, "detail": str(ex), "replay_inputs": [str(x) for x in rep]}
     return {"status": "PASS", "stats": stats}
 
 
